@@ -424,6 +424,27 @@ OWN_METHODS = {
 }
 
 
+def _flat_bases(ctx, c, depth=0):
+    """direct bases by name; a base the confirmed tree does not have (an extracted private mixin / base class) is
+    replaced by its own bases: what it contributes is judged by the tables, which run in the subclass's context"""
+    from .. import vocab
+    try:
+        known = set(vocab.load()['classes'])
+    except (OSError, ValueError):
+        known = None
+    out = []
+    for raw, b in zip(c.base_names, list(c.bases) + [None] * (len(c.base_names) - len(c.bases))):
+        name = raw.split('[')[0].split('.')[-1]
+        bi = next((x for x in c.bases if x.name == name), None)
+        if known is not None and bi is not None and name not in known and depth < 4:
+            for n in _flat_bases(ctx, bi, depth + 1):
+                if n not in out:
+                    out.append(n)
+        elif name not in out:
+            out.append(name)
+    return out
+
+
 def class_shapes(ctx, prefix, classes):
     """class-level facts: bases, BoundClass bindings / queue types, the set of overriding methods,
     and agreement of the typed stubs under TYPE_CHECKING with the run-time BoundClass arms"""
@@ -435,7 +456,7 @@ def class_shapes(ctx, prefix, classes):
         construct = '%s::%s' % (c.module.relpath, cn)
         ctx.consulted.add(c.module.relpath)
         if cn in BASES:
-            got = [b.split('[')[0].split('.')[-1] for b in c.base_names]
+            got = _flat_bases(ctx, c)
             ok = got == BASES[cn]
             ctx.ob(rule, ok)
             if not ok:
@@ -444,7 +465,8 @@ def class_shapes(ctx, prefix, classes):
             else:
                 ctx.sample(rule, construct, 'bases are %s' % got)
         for a, want in CLASS_ATTRS.get(cn, {}).items():
-            v = c.attrs.get(a)
+            r_ = c.lookup_attr(a)        # also when the class inherits the binding instead of repeating it
+            v = r_[1] if r_ else None
             got = term(v) if v is not None else None
             ok = got == want
             ctx.ob(rule, ok)
